@@ -23,7 +23,7 @@ ANCHORS = ["decaylanguage.utils.particleutils:charge_conjugate_name", "decaylang
 WORKERS = {"quick": 4, "thorough": 16}
 WTESTS = {"groups": ['conj'], "tests": ['tests/decay', 'tests/utils', 'tests/dec/test_dec.py']}
 REQUIRED = {"kind:has-antiparticle": 300, "kind:self-conjugate": 50, "kind:in-table-no-conjugate": 10, "kind:unknown-label": 50,
-            "pdg-route": 500, "multiplicity>=4": 20, "metadata>=2-user-keys": 20, "cross-layer-file": 10, "cross-layer-file-with-copy": 5, "cross-layer-file-with-sourceless-cdecay:sorting-first": 3, "returned-value-mutated-then-again": 50, "cache-cold": 1, "cache-evicting": 1,
+            "pdg-route": 500, "multiplicity>=4": 20, "metadata>=2-user-keys": 20, "cross-layer-file": 10, "particle-and-antiparticle-with-unequal-multiplicities": 20, "names-again-after-an-ampgen-read-in-the-same-process": 100, "cross-layer-file-with-copy": 5, "cross-layer-file-with-sourceless-cdecay:sorting-first": 3, "returned-value-mutated-then-again": 50, "cache-cold": 1, "cache-evicting": 1,
             "C04.name.matches_table_oracle": 1000, "C04.daughters.each_particle_with_multiplicity": 100, "C04.mode.bf_and_metadata_kept": 100}
 EXHAUSTIVE_NOTE = "every EvtGen name and every PDG name of the installed tables is visited by every worker subset union (sharded), both cache states"
 ASSUMPTIONS = ["the csv data tables of the installed particle package are the ground truth for IDs, names and self-conjugacy"]
@@ -66,6 +66,12 @@ def gen_fs(ctx, pool, pdg):
         r = rng.random()
         n = rng.choice(pool) if r < 0.85 or pdg else rng.choice(UNKNOWN)
         fs[n] = rng.choice([1, 1, 2, 3, 4, 5])
+    if not pdg and rng.random() < 0.3:
+        # a particle next to its own antiparticle, with another multiplicity
+        n = next((x for x in fs if names.kind(x) == "has-antiparticle"), None)
+        if n is not None and names.conj(n) not in fs:
+            fs[names.conj(n)] = fs[n] + rng.choice([1, 2])
+            ctx.hit("particle-and-antiparticle-with-unequal-multiplicities")
     return fs
 
 
@@ -247,6 +253,21 @@ def run(ctx):
             ds = [d for d in ds if d not in ("PHOTOS",)]
             lines.append([rng.choice(["1.0", "0.25", ".5", "2E-3"]), ds])
         check_file(ctx, m, lines)
+    # history: an AmpGen model is read in this interpreter (the library then appends its special particles to the particle table); names mean what they meant
+    try:
+        from decaylanguage.modeling.amplitudechain import AmplitudeChain  # noqa: PLC0415
+
+        AmplitudeChain.read_ampgen(text="EventType D0 K- pi+ pi+ pi-\nD0{K*(892)bar0{K-,pi+},rho(770)0{pi+,pi-}} 2 1 0 2 0 0\n")
+    except Exception as e:  # noqa: BLE001
+        ctx.note("ampgen_read_failed", f"{type(e).__name__}: {e}")
+    else:
+        if cached:
+            ccn.cache_clear()
+        for n in mine_e:
+            ctx.hit("names-again-after-an-ampgen-read-in-the-same-process")
+            check_name(ctx, n, False, "after-ampgen-read")
+        for n in mine_p[:: 3]:
+            check_name(ctx, n, True, "after-ampgen-read")
     for name, n in contracts.COUNTS.items():
         if name.startswith("C04."):
             ctx.mon(name, n)
